@@ -60,4 +60,4 @@ pub fn replay(ctx: &Ctx, sub: &str, case: &serde_json::Value) -> i32 {
     2
 }
 
-pub const RULE: &str = "core level (AddressSanitizer build of pzv-scheme): the generated cases of the C01-C05 sub-checks and of the C12 core part (encrypt / decrypt, programs of noise-free operations, key-switching family, external products, CMux / CSwap, GGSW expansion, tensor / relinearise / plaintext and constant products; N 8..128, ranks 1..3, dnum / dsize grids, cross-radix layouts; exact-size scratch windows for the 30 operations of the C12 core part) with every operand an exact-size heap block. Oracle: no sanitizer report, guard regions intact (value oracles belong to the owning properties and are ignored here). non-trivial = the owning sub-check's rule.";
+pub const RULE: &str = "core level (AddressSanitizer build of pzv-scheme): the generated cases of the C01-C05 sub-checks and of the C12 core part (encrypt / decrypt, programs of noise-free operations, key-switching family, external products, CMux / CSwap, GGSW expansion, tensor / relinearise / plaintext and constant products; N 8..128, ranks 1..3, dnum / dsize grids, cross-radix layouts; exact-size scratch windows for the 38 operations of the C12 core part) with every operand an exact-size heap block. Oracle: no sanitizer report, guard regions intact (value oracles belong to the owning properties and are ignored here). non-trivial = the owning sub-check's rule.";
